@@ -13,7 +13,10 @@ from facts import norm, call_name
 
 
 class Prov:
-    def __init__(self, fn):
+    def __init__(self, fn, field_assign=True):
+        """field_assign: treat `x.f = e` as making the whole local `x` depend on e (coarse but never misses a
+        dependency); switch off when `x` is `self` and per-field precision matters"""
+        self.field_assign = field_assign
         self.fn = fn
         self.src = {}      # local id -> list of (source expr node | None, extra atoms)
         self.params = {}   # local id -> name
@@ -88,18 +91,14 @@ class Prov:
                     for c in closures:
                         for p in c["params"]:
                             self._bind(p, ctx)
-            elif k == "Assign":
+            elif k in ("Assign", "AssignOp"):
                 # `x = e` / `x.f = e`: the assigned local also derives from e
                 base = n["l"]
+                projected = False
                 while base.get("k") in ("Field", "Index", "Unary"):
+                    projected = projected or base.get("k") in ("Field", "Index")
                     base = base["e"]
-                if base.get("k") == "Path" and "local" in base:
-                    self.src.setdefault(base["local"], []).append((n["r"], frozenset()))
-            elif k == "AssignOp":
-                base = n["l"]
-                while base.get("k") in ("Field", "Index", "Unary"):
-                    base = base["e"]
-                if base.get("k") == "Path" and "local" in base:
+                if base.get("k") == "Path" and "local" in base and (self.field_assign or not projected):
                     self.src.setdefault(base["local"], []).append((n["r"], frozenset()))
             for v in n.values():
                 if isinstance(v, (dict, list)):
